@@ -50,7 +50,7 @@ ROWS = [
     (31, r"^C17-R[23]\|", "400 consecutive assignments with the default options -> RecursionError (ast.unparse on a tree as deep as the block is long)", "known"),
     # row 32 (re-used quote: bytes in fields, depth 3) became a refusal with fix 16 below (outer quote test)
     (38, r"^C06-R3\|Namespace(Function|Class)\|store:globals\|load:plain\|SHADOW$", "count = 0\\ndef make():\\n count = 10\\n class Counter:\\n  def bump(self):\\n   global count\\n   count += 1\\n   return count\\n return Counter().bump() + count\\nprint(make(), count)  -> prints 20 11 instead of 11 1 (the bare name of a declared-global variable is captured by the enclosing function's lambda)", "known"),
-    (39, r"^C06-R9\|PendingComp\|outermost-iterable-under-own-targets$", "def f():\\n x = [1, 2]\\n def g(): return x\\n return [x * 2 for x in x], g()  -> NameError: name 'x' is not defined (the outermost iterable is rewritten with the comprehension's own targets in force)", "known"),
+    # row 39 (outermost iterable under the comprehension's own targets) was repaired later: see the fixed lines
     (40, r"^C12-R9\|", "class Csv(Plugin): name = 'csv' with Plugin.__init_subclass__ registering cls.name -> AttributeError; descriptors' __set_name__ never called; class Stack(typing.Generic[T]) -> TypeError (MRO entry resolution); @classmethod def __init_subclass__ -> classmethod(classmethod(f)), TypeError on 3.8/3.13", "known"),
     (41, r"^C14-R6\|", "package pkg with a.py: `from . import b` and b.py: `from . import a` (a legal circular import, run as python -m pkg) -> AttributeError after conversion; `from os import nope` -> AttributeError instead of ImportError", "known"),
     (43, r"^C13-R9\|", "a, b = [1, 2, 3] -> silently binds 1, 2 (Python: ValueError); r, *s = [] -> IndexError instead of ValueError", "known"),
